@@ -303,23 +303,23 @@ Print Assumptions filtered_rows_lookup.
 (* a step changes no matrix other than its receiver (class methods and exports: none at all),
    in particular no argument matrix; namespaces are never changed *)
 Theorem arguments_unchanged :
-  forall (lower : lbl -> lbl) (suffix : lbl -> Z -> lbl) (locus : Z -> lbl) (live : bool)
+  forall (lower : lbl -> lbl) (suffix : lbl -> Z -> lbl) (locus : Z -> lbl)
          (w : world) (o : op) (j : mid) (mj : matrix),
   aget j (w_ms w) = Some mj -> receiver o <> Some j ->
-  aget j (w_ms (fst (step lower suffix locus live w o))) = Some mj /\
-  w_nss (fst (step lower suffix locus live w o)) = w_nss w.
+  aget j (w_ms (fst (step lower suffix locus w o))) = Some mj /\
+  w_nss (fst (step lower suffix locus w o)) = w_nss w.
 Proof. exact step_frame. Qed.
 Print Assumptions arguments_unchanged.
 
 (* a matrix over another namespace is refused with ValueError (TaxonNamespaceIdentityError) and
    nothing changes ... *)
 Theorem foreign_namespace_refused :
-  forall (lower : lbl -> lbl) (suffix : lbl -> Z -> lbl) (locus : Z -> lbl) (live : bool)
+  forall (lower : lbl -> lbl) (suffix : lbl -> Z -> lbl) (locus : Z -> lbl)
          (w : world) (o : op) (m other : mid) (mm mo : matrix),
   aget m (w_ms w) = Some mm -> aget other (w_ms w) = Some mo -> m_ns mo <> m_ns mm ->
   (o = AddSeqs m other \/ o = ReplaceSeqs m other \/ o = UpdateSeqs m other \/
    (exists b, o = ExtendSeqs m other b) \/ o = ExtendMatrix m other) ->
-  step lower suffix locus live w o = (w, OErr ValueErr).
+  step lower suffix locus w o = (w, OErr ValueErr).
 Proof. exact step_foreign_refused. Qed.
 Print Assumptions foreign_namespace_refused.
 
@@ -336,58 +336,25 @@ Print Assumptions concatenate_foreign_namespace_refused.
 (* the side conditions used above (dict keys unique, sequences only for taxa of the matrix's
    namespace, namespaces without repeated members) hold after every history if they hold before *)
 Theorem wellformed_invariant :
-  forall (lower : lbl -> lbl) (suffix : lbl -> Z -> lbl) (locus : Z -> lbl) (live : bool)
+  forall (lower : lbl -> lbl) (suffix : lbl -> Z -> lbl) (locus : Z -> lbl)
          (ops : list op) (w : world),
   ((forall n T, aget n (w_nss w) = Some T -> NoDup T) /\
    (forall j m, aget j (w_ms w) = Some m ->
                 NoDup (map fst (m_rows m)) /\ incl (map fst (m_rows m)) (taxa_of w (m_ns m)))) ->
-  let w' := run_world lower suffix locus live w ops in
+  let w' := run_world lower suffix locus w ops in
   (forall n T, aget n (w_nss w') = Some T -> NoDup T) /\
   (forall j m, aget j (w_ms w') = Some m ->
                NoDup (map fst (m_rows m)) /\ incl (map fst (m_rows m)) (taxa_of w' (m_ns m))).
 Proof. exact run_world_wf. Qed.
 Print Assumptions wellformed_invariant.
 
-(* Termination.  `live` says which form of CharacterDataSequence.extend the working tree has
-   (observed by the harness on every run): true = it walks a live generator over its argument
-   (the code as it is), false = it materialises the argument first (the proposed repair).
-   FULL statement:  forall live w o, snd (step live w o) <> OErr Hang.
-   It holds in the repaired form (all_operations_terminate), is REFUTED for the present form
-   (all_operations_terminate_refuted: m.extend_sequences(m) / m.extend_matrix(m) never return),
-   and all_operations_terminate_partial is what holds for the present form: a call that does not
-   return is one of these two on a matrix with a non-empty sequence; every other operation, on
-   every state, terminates (no fuel exhaustion, no Hang). *)
+(* Termination: no operation, on any state, in any history, fails to return (no fuel exhaustion,
+   no Hang) - including m.extend_sequences(m) / m.extend_matrix(m), which double every sequence
+   since repair 99e94739 (that the source has the repaired form is checked on every run by the
+   translator tie Props/C19Gen.v and by the harness, which still issues these calls). *)
 Theorem all_operations_terminate :
   forall (lower : lbl -> lbl) (suffix : lbl -> Z -> lbl) (locus : Z -> lbl) (w : world) (o : op),
   (forall l i j, lower (suffix l i) = lower (suffix l j) -> i = j) ->
-  snd (step lower suffix locus false w o) <> OErr Hang.
-Proof. exact step_terminates_repaired. Qed.
+  snd (step lower suffix locus w o) <> OErr Hang.
+Proof. exact step_terminates. Qed.
 Print Assumptions all_operations_terminate.
-
-Theorem all_operations_terminate_partial :
-  forall (lower : lbl -> lbl) (suffix : lbl -> Z -> lbl) (locus : Z -> lbl) (live : bool) (w : world) (o : op),
-  (forall l i j, lower (suffix l i) = lower (suffix l j) -> i = j) ->
-  snd (step lower suffix locus live w o) = OErr Hang ->
-  live = true /\
-  exists m mm, aget m (w_ms w) = Some mm /\
-               (exists t r, In (t, r) (m_rows mm) /\ r <> []) /\
-               ((exists b, o = ExtendSeqs m m b) \/ o = ExtendMatrix m m).
-Proof. exact step_hang_only_self_extend. Qed.
-Print Assumptions all_operations_terminate_partial.
-
-Theorem all_operations_terminate_refuted :
-  exists (lower : lbl -> lbl) (suffix : lbl -> Z -> lbl) (locus : Z -> lbl) (w : world) (o : op),
-    (forall l i j, lower (suffix l i) = lower (suffix l j) -> i = j) /\
-    ((forall n T, aget n (w_nss w) = Some T -> NoDup T) /\
-     (forall j m, aget j (w_ms w) = Some m ->
-                  NoDup (map fst (m_rows m)) /\ incl (map fst (m_rows m)) (taxa_of w (m_ns m)))) /\
-    snd (step lower suffix locus true w o) = OErr Hang.
-Proof. exact all_operations_terminate_refuted_l. Qed.
-Print Assumptions all_operations_terminate_refuted.
-
-(* the divergence behind it: a non-empty list extended by a generator over itself is never
-   exhausted, whatever the fuel *)
-Theorem self_extend_diverges :
-  forall (fuel : nat) (c : cell) (r : row), extend_live fuel (c :: r) 0 = OutOfFuel.
-Proof. exact self_extend_diverges_l. Qed.
-Print Assumptions self_extend_diverges.
